@@ -5,14 +5,18 @@
                                                                order = [groups]; int keys >= 1000 are folded once by
                                                                -1000 [fold_rank]; non-int keys are skipped; a missing
                                                                key raises KeyError = [None])
-     TensorBoardFileTraceExporter._parse_events_by_id      -> [rank_cnt] (number of groups with key >= 0 — the rule after
-                                                               fix 6bb49ce; the rule before it is kept as [rank_cnt_old]
-                                                               for the regression lemma only), [tb_views]
-     TensorBoardFileTraceExporter._update_traceview_value_by_rank -> [tb_views] (view r = groups[r], default [] because
-                                                               the dict is a defaultdict)
+     TensorBoardFileTraceExporter._parse_events_by_id      -> [rank_ids] (self.rank_ids = sorted(keys >= 0): the ranks that
+                                                               are present, not necessarily 0..n-1 — the rule after fix
+                                                               0f462ed), [rank_cnt] = len(rank_ids) (number of groups
+                                                               with key >= 0, fix 6bb49ce); the two earlier rules are kept
+                                                               as [rank_ids_dense] (workers 0..rank_cnt-1, before 0f462ed)
+                                                               and [rank_ids_old] (0..groups-2, before 6bb49ce) for the
+                                                               regression lemmas only
+     TensorBoardFileTraceExporter._update_traceview_value_by_rank -> [tb_views] (one view per r in rank_ids, view of r =
+                                                               groups[r], default [] because the dict is a defaultdict)
      TensorBoardFileTraceExporter._save_events_by_id / _save_overall_trace / flush -> [tb_flush]
                                                                (rank_cnt = 1: combined file only; otherwise one worker file
-                                                               per r < rank_cnt — written even with save_to_file = False —
+                                                               per r in rank_ids — written even with save_to_file = False —
                                                                and the combined file iff save_to_file), file names
                                                                [overall_name], [fbase], [worker_name]
      JsonFileTraceExporter.export                           -> [json_export]  (every event, as its dict)
@@ -60,30 +64,45 @@ Fixpoint parse_from {A} (key : A -> keyv) (data : list A) (g : groups A) : optio
 Definition parse_by_rank_id {A} (key : A -> keyv) (data : list A) : option (groups A) :=
   parse_from key data [].
 
-(* self.rank_cnt = len([rank_id for rank_id in events_by_id if rank_id >= 0]) *)
+(* sorted() on a list of ints (insertion sort; on the distinct dict keys every correct sort gives the same list) *)
+Fixpoint z_insert (x : Z) (l : list Z) : list Z :=
+  match l with
+  | [] => [x]
+  | y :: r => if x <=? y then x :: l else y :: z_insert x r
+  end.
+Fixpoint z_sort (l : list Z) : list Z :=
+  match l with [] => [] | x :: r => z_insert x (z_sort r) end.
+
+(* the number of groups with key >= 0 *)
 Definition rank_cnt {A} (g : groups A) : nat := List.length (filter (fun k => 0 <=? k) (g_keys g)).
-(* the rule before fix 6bb49ce: len(groups) - 1 if len(groups) > 1 else len(groups) *)
+(* self.rank_ids = sorted(rank_id for rank_id in events_by_id if rank_id >= 0);  self.rank_cnt = len(self.rank_ids) *)
+Definition rank_ids {A} (g : groups A) : list Z := z_sort (filter (fun k => 0 <=? k) (g_keys g)).
+(* the rule before fix 0f462ed: for rid in range(0, rank_cnt) *)
+Definition rank_ids_dense {A} (g : groups A) : list Z := map Z.of_nat (seq 0 (rank_cnt g)).
+(* the rule before fix 6bb49ce: range(0, len(groups) - 1 if len(groups) > 1 else len(groups)) *)
 Definition rank_cnt_old {A} (g : groups A) : nat :=
   if Nat.ltb 1 (List.length g) then (List.length g - 1)%nat else List.length g.
+Definition rank_ids_old {A} (g : groups A) : list Z := map Z.of_nat (seq 0 (rank_cnt_old g)).
 
 Record tb_result (A D : Type) : Type := {
-  tb_rank_cnt : nat;
-  tb_views : list (list A * list D);     (* traceview_by_rank[0..rank_cnt-1]: (trace_events, device_data) *)
-  tb_workers_written : bool;             (* <base>_worker_<r>.pt.trace.json written for every r < rank_cnt *)
+  tb_rank_ids : list Z;                  (* self.rank_ids *)
+  tb_rank_cnt : nat;                     (* self.rank_cnt *)
+  tb_views : list (list A * list D);     (* traceview_by_rank[r] for r in rank_ids, in that order: (trace_events, device_data) *)
+  tb_workers_written : bool;             (* <base>_worker_<r>.pt.trace.json written for every r in rank_ids *)
   tb_combined_written : bool;            (* the combined file is written *)
   tb_combined : list A * list D          (* self.traceview: what get_data()/the combined file hold *)
 }.
-Arguments tb_rank_cnt {A D}. Arguments tb_views {A D}. Arguments tb_workers_written {A D}.
+Arguments tb_rank_ids {A D}. Arguments tb_rank_cnt {A D}. Arguments tb_views {A D}. Arguments tb_workers_written {A D}.
 Arguments tb_combined_written {A D}. Arguments tb_combined {A D}.
 
 Section TB.
   Context {A D : Type} (pid : A -> keyv) (did : D -> keyv).
 
-  Definition views_of (n : nat) (eg : groups A) (dg : groups D) : list (list A * list D) :=
-    map (fun r => (g_get (Z.of_nat r) eg, g_get (Z.of_nat r) dg)) (seq 0 n).
+  Definition views_of (ids : list Z) (eg : groups A) (dg : groups D) : list (list A * list D) :=
+    map (fun r => (g_get r eg, g_get r dg)) ids.
 
-  (* flush() with an arbitrary rank-count rule (the current one is [rank_cnt]) *)
-  Definition tb_flush_with (cnt : groups A -> nat) (events : list A) (devices : list D) (save_to_file : bool)
+  (* flush() with an arbitrary rule for the worker ids (the current one is [rank_ids]) *)
+  Definition tb_flush_with (ids_of : groups A -> list Z) (events : list A) (devices : list D) (save_to_file : bool)
     : option (tb_result A D) :=
     match parse_by_rank_id pid events with
     | None => None
@@ -91,18 +110,26 @@ Section TB.
         match parse_by_rank_id did devices with
         | None => None
         | Some dg =>
-            let n := cnt eg in
-            Some {| tb_rank_cnt := n;
-                    tb_views := views_of n eg dg;
+            let ids := ids_of eg in
+            let n := List.length ids in
+            Some {| tb_rank_ids := ids;
+                    tb_rank_cnt := n;
+                    tb_views := views_of ids eg dg;
                     tb_workers_written := negb (Nat.eqb n 1);
                     tb_combined_written := save_to_file;
                     tb_combined := (events, devices) |}
         end
     end.
-  Definition tb_flush := tb_flush_with rank_cnt.
-  Definition tb_flush_old := tb_flush_with rank_cnt_old.
+  Definition tb_flush := tb_flush_with rank_ids.
+  Definition tb_flush_dense := tb_flush_with rank_ids_dense.     (* before fix 0f462ed *)
+  Definition tb_flush_old := tb_flush_with rank_ids_old.         (* before fix 6bb49ce *)
 
+  (* the event lists of the worker views, in the order of [tb_rank_ids] *)
   Definition workers (res : tb_result A D) : list (list A) := map fst (tb_views res).
+  (* the view kept for rank id r (traceview_by_rank[r]), if there is one *)
+  Definition view_of_rank (res : tb_result A D) (r : Z) : option (list A * list D) :=
+    match find (fun p => fst p =? r) (combine (tb_rank_ids res) (tb_views res)) with
+    | Some p => Some (snd p) | None => None end.
 End TB.
 
 (* ------------------------------------------------------------------ file names *)
@@ -163,6 +190,8 @@ Definition dec (n : nat) : string := NilEmpty.string_of_uint (Nat.to_uint n).
 
 Definition worker_name (target : string) (r : nat) : string :=
   fbase target ++ "_worker_" ++ dec r ++ TB_EXT.
+(* the file of rank id r (a key >= 0 of the dict) *)
+Definition worker_file (target : string) (r : Z) : string := worker_name target (Z.to_nat r).
 
 Definition names_val (target : string) : val :=
   VL [VS (overall_name target); VS (fbase target); VS (worker_name target 0); VS (worker_name target 10)].
@@ -237,8 +266,8 @@ Definition df_val (c : list tvev * bool) : val :=
   VL [VL (map row_val (df_export (fst c))); VB (snd c)].
 
 (* TB tie: events and devices are (uid, key value); the observed result is
-   [rank_cnt; in-memory views [[uids of worker r; device uids of worker r] ...];
-    files written [[name; uids; device uids] ...] (workers by index, then the combined file);
+   [rank_cnt; in-memory views [[r; uids of worker r; device uids of worker r] ...] by ascending rank id r;
+    files written [[name; uids; device uids] ...] (workers by rank id, then the combined file);
     [uids of the combined view; its device uids]]   or   VE "KeyError" *)
 Definition tbev : Type := (Z * keyv)%type.
 Definition view_val (v : list tbev * list tbev) : list val := [VLz (map fst (fst v)); VLz (map fst (snd v))].
@@ -248,10 +277,10 @@ Definition tb_val (c : ((list tbev * list tbev) * bool) * string) : val :=
   | None => VE "KeyError"
   | Some r =>
       VL [VZ (Z.of_nat (tb_rank_cnt r));
-          VL (map (fun v => VL (view_val v)) (tb_views r));
+          VL (map (fun iv => VL (VZ (fst iv) :: view_val (snd iv))) (combine (tb_rank_ids r) (tb_views r)));
           VL ((if tb_workers_written r
-               then map (fun iv => VL (VS (worker_name target (fst iv)) :: view_val (snd iv)))
-                        (combine (seq 0 (tb_rank_cnt r)) (tb_views r))
+               then map (fun iv => VL (VS (worker_file target (fst iv)) :: view_val (snd iv)))
+                        (combine (tb_rank_ids r) (tb_views r))
                else []) ++
               (if tb_combined_written r then [VL (VS (overall_name target) :: view_val (tb_combined r))] else []));
           VL (view_val (tb_combined r))]
